@@ -26,6 +26,11 @@ POOL = {
     "M7": ([("A", "op", "E1", "2", None), ("B", "op", "E2", "3", None)], [("A", "B", "2")]),   # D26: two templates, one name
 }
 MODELS = sorted(POOL)
+# models whose equation calls a user-supplied helper passed through the public `ops=` keyword (outside the Coq model: these are
+# compared with fresh interpreters only).  Same generated function text, different preamble (the helper definition).
+HPOOL = {"H1": ("d/dt * x = -k*gain(x) + r", "2"), "H2": ("d/dt * x = -k*gain(x) + r", "3"), "H3": ("d/dt * x = k*gain(x) - r", "2")}
+def helper(m):
+    return {'gain': {'call': 'gain', 'def': f"def gain(x):\n    return {HPOOL[m][1]}*x\n"}} if m in HPOOL else None
 YAML = """%YAML 1.2
 ---
 op:
@@ -52,6 +57,9 @@ YPATH = "ym/t/net"
 # ---------------------------------------------------------------------------------------------- impl side (worker)
 def build(m):
     from pyrates import OperatorTemplate, NodeTemplate, CircuitTemplate
+    if m in HPOOL:
+        op = OperatorTemplate(name="oh", equations=[HPOOL[m][0]], path=None, variables={'x': 'output(0.5)', 'k': 2.0, 'r': 'input(0.0)'})
+        return CircuitTemplate(name="net", nodes={"A": NodeTemplate(name="A", operators=[op], path=None)}, edges=[], path=None)
     nodes, edges = POOL[m]
     ops, nd, opof = {}, {}, {}
     for lab, opname, eq, k, ov in nodes:
@@ -64,11 +72,12 @@ def build(m):
     es = [(f"{s}/{opof[s]}/x", f"{t}/{opof[t]}/r", None, {'weight': float(Fr(w))}) for s, t, w in edges]
     return CircuitTemplate(name="net", nodes=nd, edges=es, path=None)
 
-def observe(c, vec, clr, inplace):
+def observe(c, vec, clr, inplace, ops=None):
     import numpy as np
     from pyr import fracs
+    kw = dict(ops=ops) if ops else {}
     f, args, names, smap = c.get_run_func('f', 0.125, file_name='m', backend='default', solver='euler', vectorize=vec,
-                                          float_precision='float64', in_place=inplace, clear=clr, verbose=False)
+                                          float_precision='float64', in_place=inplace, clear=clr, verbose=False, **kw)
     vals = [fracs(v) for v in args[3:]]              # before the call: the function writes into its buffers
     n = len(args[1])
     a = list(args); a[1] = np.array([0.25 * (i + 1) for i in range(n)])
@@ -95,10 +104,12 @@ def run_steps(case, fresh):
                 c = CircuitTemplate.from_yaml(YPATH) if kind == "yload" else build(op[1])
                 handles.append(c)
                 if kind == "run":
+                    opn = "oh" if op[1] in HPOOL else POOL[op[1]][0][0][1]
+                    kw = dict(ops=helper(op[1])) if op[1] in HPOOL else {}
                     res = c.run(simulation_time=0.25, step_size=0.125, solver='euler', vectorize=op[2], clear=op[3], in_place=op[4],
-                                verbose=False, float_precision='float64', file_name='m', outputs={'o': f"A/{POOL[op[1]][0][0][1]}/x"})
+                                verbose=False, float_precision='float64', file_name='m', outputs={'o': f"A/{opn}/x"}, **kw)
                     return dict(ok="run", out=fracs(res.values))
-                o, fn = observe(c, op[2], op[3], op[4])
+                o, fn = observe(c, op[2], op[3], op[4], helper(op[1]) if kind != 'yload' else None)
                 funcs.append(fn)
                 return dict(ok="compile", **o)
             if kind in ("mclear", "uclear"):
@@ -175,6 +186,38 @@ def gen_case(rng, maxlen=10):
     else:
         final = ["compile", rng.choice(MODELS), rng.random() < 0.5, False, False]
     return dict(hist=hist, final=final)
+
+def is_ops(case):
+    return any(o[0] in ("compile", "run") and o[1] in HPOOL for o in case["hist"] + [case["final"]])
+
+def disciplined_py(case):
+    """syntactic guard of the ops= stream: every compile/run asks for clear=True or is directly followed by circuit.clear() on it"""
+    nh, h = 0, case["hist"]
+    for i, o in enumerate(h):
+        if o[0] in ("compile", "run", "yload"):
+            nh += 1
+            if not o[3] and not (i + 1 < len(h) and h[i + 1] == ["mclear", nh - 1]):
+                return False
+        elif o[0] == "yupd":
+            return False
+    return True
+
+def gen_ops_case(rng):
+    hist, nh = [], 0
+    for _ in range(rng.randint(1, 4)):
+        m = rng.choice(sorted(HPOOL) + ["M0"])
+        clr = rng.random() < 0.6
+        hist.append([rng.choice(["compile", "compile", "run"]), m, rng.random() < 0.5, clr, rng.random() < 0.4]); nh += 1
+        if not clr:
+            hist.append(["mclear", nh - 1])
+    return dict(hist=hist, final=["compile", rng.choice(sorted(HPOOL)), rng.random() < 0.5, False, False])
+
+def ops_directed():
+    C = lambda m, v=False, c=True, i=False: ["compile", m, v, c, i]
+    return [dict(hist=[C("H1")], final=C("H2", False, False)), dict(hist=[C("H2", True)], final=C("H1", True, False)),
+            dict(hist=[C("H1", False, False), ["mclear", 0]], final=C("H2", False, False)),
+            dict(hist=[["run", "H1", False, True, True]], final=C("H2", False, False)),
+            dict(hist=[C("H1"), C("H2")], final=C("H1", False, False)), dict(hist=[C("H1")], final=C("H3", False, False))]
 
 def all_finals():
     return [["compile", m, v, False, False] for m in MODELS for v in (False, True)] + [["yload", None, False, False, False]]
@@ -263,14 +306,19 @@ def evaluate(ctx, cases, tag):
     outs = run_impl(ctx, "c13", "impl", cases, per_case_timeout=120)
     crashed = [i for i, r in enumerate(outs) if "final" not in r]
     fresh = fresh_results(ctx, [c["final"] for c in cases])
-    good = [i for i in range(len(cases)) if i not in crashed]
-    badI, badS, gC, gT = model_compare(ctx, [cases[i] for i in good], [outs[i] for i in good], tag)
+    good_all = [i for i in range(len(cases)) if i not in crashed]
+    good = [i for i in good_all if not is_ops(cases[i])]          # the cases the Coq model covers
+    badI, badS, gC, gT = model_compare(ctx, [cases[i] for i in good], [outs[i] for i in good], tag) if good else ([], [], [], [])
     badI = [good[i] for i in badI]; badS = [good[i] for i in badS]
     guard_viol = {}
     for i in gC:
         guard_viol.setdefault(good[i], []).append("CachesClean")
     for i in gT:
         guard_viol.setdefault(good[i], []).append("TemplateClean")
+    for i in good_all:
+        if is_ops(cases[i]) and not disciplined_py(cases[i]):
+            guard_viol[i] = ["CachesClean"]
+    good = good_all
     for i in list(guard_viol):       # a dirty template cache only matters to a final from_yaml
         if cases[i]["final"][0] != "yload" and "TemplateClean" in guard_viol[i]:
             guard_viol[i].remove("TemplateClean")
@@ -307,7 +355,7 @@ def check(ctx):
         cases = [dict(hist=rp["case"]["hist"], final=rp["case"]["final"])] if "case" in rp else []
     else:
         cases = ([dict(hist=c["hist"], final=c["final"]) for c in corpus] + [dict(hist=[], final=f) for f in all_finals()] +
-                 [gen_case(ctx.rng) for _ in range(n)])
+                 [gen_case(ctx.rng) for _ in range(n)] + ops_directed() + [gen_ops_case(ctx.rng) for _ in range(6 if ctx.tier == "quick" else 80)])
     ev = evaluate(ctx, cases, "main")
     outs, gv = ev["outs"], ev["guard_viol"]
     if ev["fresh_bad"]:
@@ -316,12 +364,14 @@ def check(ctx):
     ctx.note(f"E1: {len(cases)} histories ({sum(len(c['hist']) + 1 for c in cases)} API calls), {len(ev['fresh'])} fresh interpreters; "
              f"guard-satisfying {len(compat)}, guard-violating {len(gv)}; result differs from fresh interpreter on {len(ev['leak'])} "
              f"(of which inside the guard: {len([i for i in ev['leak'] if i not in gv])}); impl-vs-Impl mismatches {len(ev['badI'])} "
-             f"(inside the guard: {len([i for i in ev['badI'] if i not in gv])}); harness/worker errors {len(ev['crashed'])}")
+             f"(inside the guard: {len([i for i in ev['badI'] if i not in gv])}); harness/worker errors {len(ev['crashed'])}; "
+             f"of the histories {sum(1 for c in cases if is_ops(c))} are the ops= stream (user helper functions; real code vs fresh interpreter only)")
     def show(c):
         e = evaluate(ctx, [c], "show")
         o = e["outs"][0]
         return dict(implementation_output=o, fresh_interpreter=e["fresh"].get(canon(c["final"])),
-                    model_output=model_output(ctx, c, o, "d") if "final" in o else None, guards_violated=e["guard_viol"].get(0, []))
+                    model_output=model_output(ctx, c, o, "d") if "final" in o and not is_ops(c) else "(ops= stream: outside the Coq model)",
+                    guards_violated=e["guard_viol"].get(0, []))
     def witness_check(f):
         w = json.load(open(os.path.join(VERIF, f["witness"])))
         e = evaluate(ctx, [dict(hist=w["hist"], final=w["final"])], "w" + f["id"].replace("-", "_"))
@@ -348,9 +398,10 @@ def check(ctx):
                         "get_run_func; from_yaml+update_var; circuit.clear(); pyrates.clear(circuit); clear_frontend_caches(tc, ic)) over a pool of 7 "
                         "models (same operator name with another equation / another default, same structure under another operator name, two "
                         "templates with one name, 1/2/3 nodes) run in one process without reset, final model compared with a fresh interpreter; "
-                        "non-trivial = the history contains >= 1 earlier compilation (it shares the file name and the node label `A`, mostly also "
+                        "plus a real-code-only stream of disciplined histories over three models whose equation calls a helper passed through ops= (same "
+                        "function text, different helper definitions); non-trivial = the history contains >= 1 earlier compilation (it shares the file name and the node label `A`, mostly also "
                         "the operator name or the structural class, with the final model); distinct = distinct canonical JSON",
-                   samples=[c for c in cases if overlap(c)][:3], extra=dict(input_distribution=hist,
+                   samples=[c for c in cases if overlap(c)][:3], extra=dict(input_distribution=dict(hist, ops_stream=sum(1 for c in cases if is_ops(c))),
                             impl_vs_model_mismatches=len(ev["badI"]), result_differs_from_fresh=len(ev["leak"])),
                    trusted_base=["the fresh interpreter (subprocess, PYTHONPATH=REPO, own cwd) is the reference for 'first model handled by the process'",
                                  "numpy float64 arithmetic is exact on the generated dyadic data (results are compared as exact rationals)",
